@@ -39,6 +39,8 @@ FsSort = z3.ArraySort(S, OptBytes)
 textread = z3.Function("textread", S, Bytes, S)
 decodable = z3.Function("decodable", S, Bytes, z3.BoolSort())
 textwrite = z3.Function("textwrite", S, S, Bytes)
+textread_raw = z3.Function("textread_raw", S, Bytes, S)        # the same without universal-newline translation (newline="")
+textwrite_raw = z3.Function("textwrite_raw", S, S, Bytes)
 encodable = z3.Function("encodable", S, S, z3.BoolSort())
 listing = z3.Function("fs_listdir", S, TSeq(STR).sort())
 isdir_ = z3.Function("fs_isdir", S, z3.BoolSort())
@@ -105,6 +107,13 @@ def fs_open(ex, args, kwargs):
     if enc is None:
         enc = "<locale default encoding>"      # open() without encoding=: whatever the platform prefers
     nt, et = term(name, STR), term(enc, STR)
+    nl = kwargs.get("newline", None)
+    if nl not in (None, ""):
+        raise Unsupported(f"open(..., newline={nl!r})")
+    rd, wr = (textread, textwrite) if nl is None else (textread_raw, textwrite_raw)       # newline="": no translation of line breaks
+    extra = set(kwargs) - {"encoding", "newline", "path", "file", "mode"}
+    if extra:
+        raise Unsupported(f"filesystem.open with arguments {sorted(extra)}")
     fs = fs_of(ex)
     ex.assumptions_used.add("T-FS: ghost file system contract for open/read/write/close (NativeOSFS and PyFilesystem both assumed to satisfy it)")
     ex.ghost.setdefault("fs_calls", []).append(("open", mode, nt, et))
@@ -113,7 +122,7 @@ def fs_open(ex, args, kwargs):
         if not ex.branch(OptBytes.is_data(cell), "file-exists"):
             ex.raise_(FileNotFoundError, "No such file or directory", tag="open-missing")
         b = OptBytes.bytes(cell)
-        f = HObj(io.TextIOWrapper, {"content": SV(textread(et, b), STR), "pos": 0, "name": name, "mode": "r",
+        f = HObj(io.TextIOWrapper, {"content": SV(rd(et, b), STR), "pos": 0, "name": name, "mode": "r",
                                     "undecodable": z3.Not(decodable(et, b)), "enc": enc, "closed": False}, "textfile")
         if ex.writes is not None:
             f._born = ex.writes
@@ -122,8 +131,8 @@ def fs_open(ex, args, kwargs):
         if faults(ex).open_write:
             if ex.branch(fresh_term(z3.BoolSort(), "fault_open_w"), "fault:open-w"):
                 ex.raise_(OSError, "cannot open for writing", tag="fault:open-w")
-        set_fs(ex, z3.Store(fs, nt, OptBytes.data(textwrite(et, strval("")))))
-        w = HObj(MSD._Writer, {"name": name, "enc": enc, "out": SV(z3.Empty(MSD.FRAGS), MSD.T_FRAGS), "closed": False, "nt": nt, "et": et}, "writer")
+        set_fs(ex, z3.Store(fs, nt, OptBytes.data(wr(et, strval("")))))
+        w = HObj(MSD._Writer, {"name": name, "enc": enc, "out": SV(z3.Empty(MSD.FRAGS), MSD.T_FRAGS), "closed": False, "nt": nt, "et": et, "wr": wr}, "writer")
         if ex.writes is not None:
             w._born = ex.writes
         return w
@@ -144,7 +153,7 @@ def _write_hook(ex, f, s):
             ex.raise_(OSError, "write failed", tag="fault:write")
     out = z3.Concat(f.fields["out"].t, *MSD.frags_of(ex, s)) if MSD.frags_of(ex, s) else f.fields["out"].t
     ex.setfield(f, "out", SV(out, MSD.T_FRAGS))
-    set_fs(ex, z3.Store(fs_of(ex), nt, OptBytes.data(textwrite(et, MSD.frag_text(out)))))
+    set_fs(ex, z3.Store(fs_of(ex), nt, OptBytes.data(f.fields.get("wr", textwrite)(et, MSD.frag_text(out)))))
     return SV(z3.Length(st), INT)
 
 
@@ -219,6 +228,7 @@ M.ATTR_HOOKS.insert(0, _fs_attr)
 
 def install(ex=None):
     from fs.base import FS
+    M.REAL_CALL[io.open] = _io_open
     M.CLASS_NEW[FS] = _fs_new
     import simfile._private.nativeosfs as n
     M.CLASS_NEW[n.NativeOSFS] = _fs_new
@@ -227,7 +237,32 @@ def install(ex=None):
 def native_open_contract(ex, args, kwargs):
     """NativeOSFS.open(*args, **kwargs) -> io.open: the same T-FS contract"""
     _through_callers_fs(ex, "open", args[0])
-    return fs_open(ex, args[1:], kwargs)
+    # NativeOSFS.open itself is under contract: its body is executed (it hands its arguments to io.open, which is the T-FS
+    # model below), so a change of the arguments it passes on - a different `newline`, a dropped encoding - is seen
+    import simfile._private.nativeosfs as n
+    q = "simfile._private.nativeosfs.NativeOSFS.open"
+    cc = ex.callee_contracts.pop(q, None)
+    try:
+        return ex.call_closure(ex.closure_of(q, owner=n.NativeOSFS), list(args), dict(kwargs))
+    finally:
+        if cc is not None:
+            ex.callee_contracts[q] = cc
+
+
+def _io_open(ex, args, kwargs):
+    """io.open / builtins.open(file, mode='r', buffering=-1, encoding=None, errors=None, newline=None, ...)"""
+    names = ["file", "mode", "buffering", "encoding", "errors", "newline", "closefd", "opener"]
+    kw = dict(kwargs)
+    for nm, a in zip(names, args):
+        kw[nm] = a
+    for nm, dflt in (("buffering", -1), ("errors", None), ("closefd", True), ("opener", None)):
+        if kw.pop(nm, dflt) != dflt:
+            raise Unsupported(f"open(..., {nm}=...) with a non-default value")
+    unknown = set(kw) - {"file", "mode", "encoding", "newline"}
+    if unknown:
+        raise Unsupported(f"open() with arguments {sorted(unknown)}")
+    rest = {k: v for k, v in kw.items() if k in ("encoding", "newline")}
+    return fs_open(ex, [kw.get("file"), kw.get("mode", "r")], rest)
 
 
 # ---------------------------------------------------------------------------
